@@ -73,6 +73,10 @@ EXPLANATION += (
     ' Round 5: settings are forwarded at every call (R-FWD/parameter-forwarded).'
 )
 
+EXPLANATION += (
+    ' Round 8: the worker count is tested against a constant only at the two confirmed serial-or-parallel sites (R-PROV/worker-count-special-case).'
+)
+
 RULE_TEXT = (
     "one obligation per (sink site, set of source labels) finding, per "
     "benign source used, per RNG construction, per merge loop, per worker "
